@@ -25,7 +25,8 @@ BACKENDS = {
     'minisat': [], 'cadical': ['--sat-solver', 'cadical'], 'kissat': ['--external-sat-solver', 'kissat'],
     'z3': ['--z3'], 'cvc5': ['--cvc5'],
 }
-RT_LOOPS = ['__verif_memset.0', '__verif_memcpy.0', '__verif_memmove.0', '__verif_memmove.1']
+RT_LOOPS = ['__verif_memset.0', '__verif_memcpy.0', '__verif_memmove.0', '__verif_memmove.1'] + \
+    ['__verif_mem%s%d.%d' % (k, w, i) for w in (16, 32, 64) for k, i in (('set', 0), ('cpy', 0), ('move', 0), ('move', 1))]
 CBMC_BASE = ['--unwinding-assertions', '--drop-unused-functions', '--no-malloc-may-fail',
              '--no-signed-overflow-check', '--no-undefined-shift-check', '--no-pointer-primitive-check',
              '--object-bits', '10', '--json-ui']
@@ -148,20 +149,22 @@ class Runner:
         return res
 
     # ------------------------------------------------------------------ cbmc
-    def cbmc_cmd(self, ob, extra_defines=(), trace_property=None, backend=None):
+    def cbmc_cmd(self, ob, extra_defines=(), trace_property=None, backend=None, unwindset_override=None):
         u = self.units[ob.unit]
         cmd = ['cbmc'] + self.hpaths(u) + [os.path.join(RT, f) for f in u.rt] + [os.path.join(u.dir, 'gen.c')]
         cmd += ['-I' + RT, '-I' + u.dir, '-I' + os.path.join(ROOT, 'props', self.id)]
         cmd += ['-D' + x for x in list(ob.defines) + list(extra_defines)]
         cmd += ['--function', ob.fn, '--unwind', str(ob.unwind)] + CBMC_BASE + BACKENDS[backend or ob.backend] + ob.flags
-        us = list(ob.unwindset) + ['%s:%d' % (l, ob.mem_unwind) for l in RT_LOOPS if not any(x.startswith(l + ':') for x in ob.unwindset)]
+        ov = dict(getattr(ob, 'unwind_refined', {})); ov.update(unwindset_override or {})
+        us = ['%s:%d' % kv for kv in ov.items()] + [x for x in ob.unwindset if x.split(':')[0] not in ov]
+        us += ['%s:%d' % (l, ob.mem_unwind) for l in RT_LOOPS if not any(x.startswith(l + ':') for x in us)]
         cmd += ['--unwindset', ','.join(us)]
         if trace_property: cmd += ['--trace', '--property', trace_property]
         return cmd
 
-    def run_cbmc(self, ob, extra_defines=(), trace_property=None, backend=None, timeout=None):
+    def run_cbmc(self, ob, extra_defines=(), trace_property=None, backend=None, timeout=None, unwindset_override=None):
         to = timeout or ob.timeout or (180 if self.tier == 'quick' else 1800)
-        cmd = self.cbmc_cmd(ob, extra_defines, trace_property, backend)
+        cmd = self.cbmc_cmd(ob, extra_defines, trace_property, backend, unwindset_override)
         env = dict(os.environ); env['PATH'] = os.path.join(ROOT, 'tools', 'shim') + ':' + env['PATH']
         rc, out, err, t = sh(cmd, timeout=to, mem_gb=12, env=env)
         r = {'rc': rc, 'time_s': round(t, 2), 'props': [], 'errors': [], 'cmd': ' '.join(cmd), 'backend_used': backend or ob.backend}
@@ -198,6 +201,21 @@ class Runner:
     def decide(self, ob, extra_defines=()):
         """run with the pinned back end; on timeout/oom retry once on another one"""
         r = self.run_cbmc(ob, extra_defines)
+        # automatic refinement of loop bounds: an unwinding assertion that fails names its loop; that loop's bound is raised
+        # (x4, capped) and the obligation is run again.  A bound that is still too small after the refinements is INCONCLUSIVE.
+        extra_us = {}
+        for _ in range(5):
+            if r['status'] != 'unwind': break
+            for pn, _d in r['failed']:
+                m = re.match(r'^(.*)\.unwind\.(\d+)$', pn)
+                if m:
+                    lid = '%s.%s' % (m.group(1), m.group(2))
+                    cur = extra_us.get(lid) or next((int(x.split(':')[1]) for x in ob.unwindset if x.startswith(lid + ':')), None) or \
+                        (ob.mem_unwind if lid in RT_LOOPS else ob.unwind)
+                    extra_us[lid] = min(cur * 4, 1100)
+            r = self.run_cbmc(ob, extra_defines, unwindset_override=extra_us)
+            r['unwind_refined'] = dict(extra_us)
+        ob.unwind_refined = dict(extra_us)
         if r['status'] in ('timeout', 'oom'):
             alt = 'cadical' if ob.backend != 'cadical' else 'minisat'
             r2 = self.run_cbmc(ob, extra_defines, backend=alt)
